@@ -260,9 +260,7 @@ def run(tier):
     run.known.probe()
     common.import_pregex()
     import pregex.meta.essentials as me
-    run.functions = common.src_fingerprint([me.Decimal.__init__, me.PositiveDecimal.__init__, me.NegativeDecimal.__init__,
-                                            me.UnsignedDecimal.__init__, me.Decimal.__mro__[1].__init__,
-                                            me.Numeral.__init__, me.Integer.__mro__[1].__init__])
+    run.functions = common.src_fingerprint(common.resolve([(me.Decimal, "__init__"), (me.PositiveDecimal, "__init__"), (me.NegativeDecimal, "__init__"), (me.UnsignedDecimal, "__init__"), (me.Decimal.__mro__[1], "__init__"), (me.Numeral, "__init__"), (me.Integer.__mro__[1], "__init__")]))
     if tier == "quick":
         pairs = [(0, 9), (0, 12), (1, 9), (3, 10), (10, 10), (17, 120), (0, 2147483647)]
         decs = [(1, None), (1, 1), (2, 3)]
